@@ -545,27 +545,47 @@ REPO_TEST_SLOW = ["blocking_timeout_expiry_tests", "actual_timeout_tests::test_a
 
 
 def life_check(d, tr, tag, ctx):
-    """sorts the hook log `tr` by (process, ticket) and folds it through LifeTrace.tla; returns (events, [(prop, why, line)])"""
+    """sorts the hook log `tr` by (process, ticket), cuts it into chunks at actor boundaries (the rules of LifeTrace.tla are per
+    actor) and folds each chunk through LifeTrace.tla, in parallel; returns (events, [(prop, why, line)])"""
     evs = [json.loads(l) for l in open(tr) if l.startswith("{")]
     evs.sort(key=lambda e: (e["pid"], e["t"]))
     with open(tr, "w") as f:
         for e in evs:
             f.write(json.dumps(e) + "\n")
+    by_actor = {}
+    for e in evs:
+        by_actor.setdefault((e["pid"], e["id"]), []).append(e)
+    chunks, cur = [], []
+    for k in sorted(by_actor):
+        cur.extend(by_actor[k])
+        if len(cur) >= 40000:
+            chunks.append(cur); cur = []
+    if cur or not chunks:
+        chunks.append(cur)
     open(os.path.join(d, "LifeTrace.cfg"), "w").write("SPECIFICATION Spec\nPOSTCONDITION Consumed\nCHECK_DEADLOCK FALSE\n")
-    e2 = dict(os.environ); e2["TRACE"] = tr
-    e2["JAVA_TOOL_OPTIONS"] = "-Xss1g -Dtlc2.tool.queue.IStateQueue=StateDeque"
-    q = subprocess.run(JAVA[:2] + ["-Xmx6g"] + JAVA[4:] + ["-workers", "1", "-metadir", os.path.join(d, "meta_life_" + tag), "-noGenerateSpecTE",
-                        "-config", "LifeTrace.cfg", "LifeTrace.tla"], cwd=d, env=e2, text=True,
-                       stdout=subprocess.PIPE, stderr=subprocess.STDOUT, timeout=3600)
-    o = q.stdout or ""
-    if "LIFECHECKED" not in o:
-        open(os.path.join(d, "LifeTrace_%s.out" % tag), "w").write(o)
-        raise ctx["ToolError"]("LifeTrace check did not complete (see LifeTrace_%s.out)" % tag)
+
+    def one(ic):
+        i, chunk = ic
+        cp = os.path.join(d, "life_%s_chunk%d.ndjson" % (tag, i))
+        with open(cp, "w") as f:
+            for e in chunk:
+                f.write(json.dumps(e) + "\n")
+        e2 = dict(os.environ); e2["TRACE"] = cp
+        e2["JAVA_TOOL_OPTIONS"] = "-Xss1g -Dtlc2.tool.queue.IStateQueue=StateDeque"
+        q = subprocess.run(JAVA[:2] + ["-Xmx3g"] + JAVA[4:] + ["-workers", "1", "-checkpoint", "0", "-metadir", os.path.join(d, "meta_life_%s_%d" % (tag, i)),
+                            "-noGenerateSpecTE", "-config", "LifeTrace.cfg", "LifeTrace.tla"], cwd=d, env=e2, text=True,
+                           stdout=subprocess.PIPE, stderr=subprocess.STDOUT, timeout=3000)
+        return i, q.stdout or ""
     bads = []
-    for line in o.splitlines():
-        if "LIFEBAD" in line:
-            for (pp, why) in re.findall(r'<<\\?"(C\d\d)\\?", \\?"([^"\\]*)', line):
-                bads.append((pp, why, line))
+    with cf.ThreadPoolExecutor(max_workers=8) as ex:
+        for i, o in ex.map(one, list(enumerate(chunks))):
+            if "LIFECHECKED" not in o:
+                open(os.path.join(d, "LifeTrace_%s.out" % tag), "w").write(o)
+                raise ctx["ToolError"]("LifeTrace check did not complete (see LifeTrace_%s.out)" % tag)
+            for line in o.splitlines():
+                if "LIFEBAD" in line:
+                    for (pp, why) in re.findall(r'<<\\?"(C\d\d)\\?", \\?"([^"\\]*)', line):
+                        bads.append((pp, why, line))
     return evs, bads
 
 
